@@ -25,7 +25,7 @@ from checks import engine as E
 from gen import corpus
 from lsfsim.core import EPOCH, SimCrash
 from lsfsim.runner import run_scenario
-from monitors.basic import NotifyMonitor
+from monitors.basic import NotifyMonitor, BrokerMonitor
 
 PROP = "C04"
 NODE = "n0"
@@ -144,7 +144,8 @@ def run_crash(scn, seed, point, downtime):
             sim.broker.fault_hook = hook
     mon = NotifyMonitor("C04", check_shape=False)
     ttl = scn["config"].get("execution_ttl", 120)
-    res = run_scenario(scn, seed, monitors=[mon], before_run=before, horizon=ttl + 900, settle=ttl + 70,
+    bm = BrokerMonitor(drain=False, carrier=False)
+    res = run_scenario(scn, seed, monitors=[mon, bm], before_run=before, horizon=ttl + 900, settle=ttl + 70,
                        settle_if=lambda r: unfinished(r, mon))
     return res, state, mon
 
@@ -191,6 +192,19 @@ def requested_again(res, ref_reqs, scn, ctx, witness):
                        "(function, payload) pairs over-requested" % (ctx, fn, payload[:60], n, len(extra))}]
 
 
+def never_acked(res, ctx, witness):
+    """A reply that arrives around the restart is matched to its task - or, as an orphan, acknowledged once its
+    retention is over: at quiescence after the last restart no reply delivered to the live engine stays unacknowledged
+    (event messages of executions that recorded findings end early are left to those findings)."""
+    out = []
+    for f in res.findings:
+        if f["property"] == "C03" and f["rule"] == "never-acked" and "asl_workflow_reply_to" in f["detail"]:
+            out.append({"property": PROP, "rule": "never-acked-after-restart", "witness": witness,
+                        "detail": "%s: %s" % (ctx, f["detail"])})
+            break
+    return out
+
+
 def check_point(scn, seed, point, downtime, ref_out, arn, ref_reqs=None):
     res, state, mon = run_crash(scn, seed, point, downtime)
     findings = []
@@ -217,6 +231,7 @@ def check_point(scn, seed, point, downtime, ref_out, arn, ref_reqs=None):
     if dup:
         findings.append({"property": PROP, "rule": "task-requested-again", "witness": None,
                          "detail": "%s: correlation id %s was requested %d times" % (ctx, dup[0], seen[dup[0]])})
+    findings += never_acked(res, ctx, classify_witness("never-acked", point, state, res))
     if state["idle"] and ref_reqs is not None:
         findings += requested_again(res, ref_reqs, scn, ctx, classify_witness("task-requested-again", point, state, res))
     out = outcome(res, arn)
@@ -480,7 +495,8 @@ def run_multi_case(case, seed):
         sim.broker.publish_hooks.append(on_publish)
     mon = NotifyMonitor("C04", check_shape=False)
     ttl = scn["config"].get("execution_ttl", 120)
-    res = run_scenario(scn, seed, monitors=[mon], before_run=before, horizon=ttl + 900 + 10 * len(plan),
+    bm = BrokerMonitor(drain=False, carrier=False)
+    res = run_scenario(scn, seed, monitors=[mon, bm], before_run=before, horizon=ttl + 900 + 10 * len(plan),
                        settle=ttl + 70, settle_if=lambda r: unfinished(r, mon))
     return res, state, mon
 
@@ -513,6 +529,7 @@ def check_multi(case, seed):
     if dup:
         findings.append({"property": PROP, "rule": "task-requested-again", "witness": None,
                          "detail": "%s: correlation id %s was requested %d times" % (ctx, dup[0], seen[dup[0]])})
+    findings += never_acked(res, ctx, None)
     node = res.world.nodes[0]
     state["armed"] = False      # the crash plan is over: nothing below may trigger another crash
     state["k"] = len(case["plan"])
